@@ -6,6 +6,7 @@ import (
 	"bufio"
 	"fmt"
 	"io"
+	"os"
 	"os/exec"
 	"strings"
 	"time"
@@ -241,6 +242,10 @@ func (s *Solver) Check() string {
 	default:
 		r = "unknown"
 		s.Stats.Unknown++
+		if d := os.Getenv("SYMGO_DUMP_UNKNOWN"); d != "" {
+			os.MkdirAll(d, 0o755)
+			os.WriteFile(fmt.Sprintf("%s/unk-%d-%d.smt2", d, os.Getpid(), time.Now().UnixNano()), []byte(s.Script()+"\n"), 0o644)
+		}
 	}
 	return r
 }
